@@ -55,6 +55,24 @@ let run_case (line : string) =
                     if ki = 10 || ki = 11 || ki = 12 then out_int 0 else out_z l) errs;
          out_config cfg)
        (parse files o { c_vars = vars; c_binds = [] } src)
+   | "histm" ->
+     let dtab = next_list (fun t -> let l = next_zlist t in let ok = next_bool t in let b = next_zlist t in
+                            (List.map int_of_z l, if ok then Some b else None)) t in
+     let dec l = match List.assoc_opt (List.map int_of_z l) dtab with Some r -> r | None -> None in
+     let n = next_int t in
+     let st = ref ([], []) in
+     for _ = 1 to n do
+       match next_int t with
+       | 0 -> let e = next_zlist t in let text = next_zlist t in
+         st := write (fun _ -> e) !st text
+       | 1 -> let es = open_hist dec (snd !st) in
+         out_str "R"; out_list out_zlist es; st := (es, snd !st)
+       | _ -> let k = next_int t in let e = next_zlist t in let text = next_zlist t in
+         let f = crash_write (fun _ -> e) (snd !st) text (nat_of_int k) in
+         st := (open_hist dec f, f)
+     done;
+     out_str "F"; out_zlist (snd !st)
+   | "trim" -> let s = next_zlist t in out_zlist (trim_space s)
    | "quote" -> let c = next_z t in out_zlist (quote c)
    | _ -> out_str ("UNKNOWN-OP " ^ op));
   flush_line ()
